@@ -20,6 +20,7 @@ func init() {
 		},
 		Assumptions: commonAssumptions,
 		Engines:     "type query, GUARD, BOUND (no narrowing conversions), CODEC, WHO, PATH, ROLE",
+		TagMatrix:   [][]string{{"integration"}, {"GOARCH=386"}},
 		Run:         runC06,
 	})
 }
